@@ -894,6 +894,21 @@ class ZInt(SymInt):
             return _mkz((self.e / (1 << o)))
         raise Unsupported("symbolic shift in Z domain")
 
+    def __rlshift__(self, o: Any) -> Any:
+        # <int> << <symbolic count>: counts are widths (a few dozen feasible values): fork over them
+        if isinstance(o, int) and not isinstance(o, bool):
+            if ENGINE.branch(self.e < 0):
+                raise modelled(ValueError("negative shift count"))
+            return o << ENGINE.concretize(self.e, "shift count")
+        raise Unsupported("symbolic shift in Z domain")
+
+    def __rrshift__(self, o: Any) -> Any:
+        if isinstance(o, int) and not isinstance(o, bool):
+            if ENGINE.branch(self.e < 0):
+                raise modelled(ValueError("negative shift count"))
+            return o >> ENGINE.concretize(self.e, "shift count")
+        raise Unsupported("symbolic shift in Z domain")
+
     def __and__(self, o: Any) -> Any:
         raise Unsupported("bitwise and in Z domain")
 
